@@ -23,12 +23,22 @@ gradient(), compile_gradient, compile_jacobian([e],V), degree / is_linear, get_a
 solve with the formula as objective (min or max, whichever is convex) and as constraint — and
 compared with the exact reference (ref_eval / dual numbers) and between builds.
 
+LP-route dimension: deep *linear* accumulations (left-deep, right-deep, with wrappers; sums, differences,
+scaled / divided / negated / constant-carrying terms) of n ∈ {399 … 900} terms drive every walker of the
+linear route — is_linear / degree / is_quadratic, extract_linear_coefficient, extract_constant_term,
+extract_all_linear_coefficients (several index maps), LinearProgramExtractor (objective and constraint rows),
+is_simple_bound, classify_constraints, Problem.variables — and are solved as LP objective (min and max) and as LP
+constraint with methods auto / linprog / highs / highs-ds / highs-ipm: nothing may raise, the interpreter's
+recursion limit must be what it was, coefficients must equal the ones the harness accumulated itself and
+optima must equal SciPy's linprog on that independent data.
+
 Tie to the Lean model (n ≤ 900): variables at both thresholds, gradient with the switch at both
 thresholds (structural), the three depth estimates, compiled IR + which builder ran.
 """
 from __future__ import annotations
 
 import math
+import sys
 import time
 import warnings
 
@@ -663,6 +673,16 @@ def run(ctx) -> core.Report:
         else:
             rep.nontrivial.add(("wrapped", fam, fam2, w, n))
     rep.histogram["wall_wrapped_s"] = round(time.time() - t_start, 1)
+    # ---- deep linear accumulations through every walker of the LP route
+    for kind, shape, wrapper, n, nvars, fseed, methods in lp_route_plan(rng, thorough):
+        r = lp_route_case(kind, shape, wrapper, n, nvars, fseed, methods)
+        rep.histogram["lp-route"] = rep.histogram.get("lp-route", 0) + 1
+        rep.histogram[f"lp-route:{shape}:{n}"] = rep.histogram.get(f"lp-route:{shape}:{n}", 0) + 1
+        if r is not None:
+            fails.append(r)
+        else:
+            rep.nontrivial.add(("lp-route", kind, shape, wrapper, n, nvars))
+    rep.histogram["wall_lp_route_s"] = round(time.time() - t_start, 1)
     # ---- lifetime: one model rebuilt from fresh objects, caches never cleared
     for fam, op, n in ([("sq", "+", 401), ("un:exp", "*", 48), ("vec:dot", "-", 401), ("aud:shared", "+", 48), ("param", "/", 401),
                         ("vec:view:fro-sym", "+", 48)] if thorough else [(rng.choice(["sq", "vec:dot", "param"]), rng.choice("+-*/"), 401),
@@ -1257,6 +1277,213 @@ def lifetime_case(fam, op, n, fseed, rounds):
     return None
 
 
+
+# ----------------------------------------------------------------------------- deep linear accumulations on the LP route
+
+LP_METHODS = ["auto", "linprog", "highs", "highs-ds", "highs-ipm"]
+LP_KINDS = ["sum", "diff", "scaled", "mixed-forms", "with-constants"]
+LP_WRAPS = ["none", "k*", "/k", "K-", "neg", "+K"]
+
+
+def lp_accumulation(kind, shape, wrapper, n, nvars, rng):
+    """(expression, {name: coefficient}, constant, variables): a term-by-term linear accumulation and, computed by
+    the harness alongside (dyadic numbers: exact in doubles), the affine function it denotes"""
+    from optyx import Variable
+    from optyx.core.expressions import Constant
+
+    xs = [Variable(f"x{j}", lb=0.0, ub=1.0) for j in range(nvars)]
+    terms = []  # (expression, var index, coefficient, constant)
+    for i in range(n):
+        j = i % nvars if rng.random() < 0.8 else rng.randrange(nvars)
+        v = xs[j]
+        c = rng.choice([0.25, 0.5, -0.75, 1.5, -2.0, 3.0, -0.25, 1.0])
+        if kind in ("sum", "diff"):
+            terms.append((v, j, 1.0, 0.0))
+        elif kind == "scaled":
+            terms.append((c * v, j, c, 0.0))
+        elif kind == "mixed-forms":
+            form = i % 6
+            e = [c * v, v * c, v / (1.0 / c), -(v * -c), Constant(c) * v, (v * 2.0) * (c / 2.0)][form]
+            terms.append((e, j, c, 0.0))
+        else:
+            d = rng.choice([0.0, 0.5, -1.25, 2.0])
+            terms.append((c * v + d if i % 2 else d + v * c, j, c, d))
+    sub = kind == "diff"
+    coef = [0.0] * nvars
+    const = 0.0
+    if shape == "left":
+        acc = terms[0][0]
+        signs = [1.0] + [(-1.0 if sub else 1.0)] * (n - 1)
+        for t in terms[1:]:
+            acc = (acc - t[0]) if sub else (acc + t[0])
+    else:  # right-deep: t0 ∘ (t1 ∘ (t2 ∘ …))
+        acc = terms[-1][0]
+        for t in reversed(terms[:-1]):
+            acc = (t[0] - acc) if sub else (t[0] + acc)
+        signs = [((-1.0) ** i if sub else 1.0) for i in range(n)]
+    for sg, (_, j, c, d) in zip(signs, terms):
+        coef[j] += sg * c
+        const += sg * d
+    k, K0 = rng.choice([2.0, -0.5, 4.0]), rng.choice([7.5, -2.25])
+    if wrapper == "k*":
+        acc, coef, const = k * acc, [k * a for a in coef], k * const
+    elif wrapper == "/k":
+        acc, coef, const = acc / k, [a / k for a in coef], const / k
+    elif wrapper == "K-":
+        acc, coef, const = K0 - acc, [-a for a in coef], K0 - const
+    elif wrapper == "neg":
+        acc, coef, const = -acc, [-a for a in coef], -const
+    elif wrapper == "+K":
+        acc, const = acc + K0, const + K0
+    used = sorted({t[1] for t in terms})  # a variable that was never drawn is not part of the model
+    return acc, {xs[j].name: coef[j] for j in used}, const, [xs[j] for j in used]
+
+
+def scipy_lp(c, c0, sense, rows, nvars):
+    """the optimum of  min/max c·x + c0  s.t. rows (a, '<='|'>=', r), 0 ≤ x ≤ 1 — SciPy on the harness's own data"""
+    from scipy.optimize import linprog
+
+    A, b = [], []
+    for a, sn, r in rows:
+        if sn == "<=":
+            A.append(a); b.append(r)
+        else:
+            A.append([-v for v in a]); b.append(-r)
+    cc = np.array(c) if sense == "min" else -np.array(c)
+    res = linprog(cc, A_ub=np.array(A) if A else None, b_ub=np.array(b) if b else None, bounds=[(0.0, 1.0)] * nvars, method="highs")
+    if res.status != 0:
+        return None
+    return (res.fun if sense == "min" else -res.fun) + c0
+
+
+def lp_route_case(kind, shape, wrapper, n, nvars, fseed, methods):
+    """None = every walker and every solve of the linear route answers correctly; else a failure dict"""
+    import optyx.analysis as A
+    from optyx import Problem
+
+    base = {"family": "lp-route", "kind": kind, "shape": shape, "wrapper": wrapper, "n": n, "nvars": nvars, "seed": fseed,
+            "methods": methods}
+    rng = core.Rng(fseed)
+    e, coef, const, xs = lp_accumulation(kind, shape, wrapper, n, nvars, rng)
+    nvars = len(xs)
+    names = [v.name for v in xs]
+    avec = [coef[nm] for nm in names]
+    tol = 1e-9 * (sum(abs(a) for a in avec) + abs(const) + 1.0)
+    limit0 = sys.getrecursionlimit()
+    clear_caches()
+
+    def run(what, fn):
+        val, err = guarded(fn)
+        lim = sys.getrecursionlimit()
+        if lim != limit0:
+            sys.setrecursionlimit(limit0)
+            return None, dict(base, what=f"{what} left the interpreter's recursion limit at {lim} (was {limit0})")
+        if err is not None:
+            return None, dict(base, what=f"{what} raised {err} on a {shape}-deep linear accumulation of {n} terms")
+        return val, None
+
+    def vec_ok(got, want):
+        return got is not None and len(got) == len(want) and all(abs(float(g) - w) <= tol for g, w in zip(got, want))
+
+    checks = [
+        ("is_linear", lambda: (A.is_linear(e), e.is_linear(), A.is_quadratic(e)), lambda r: r == (True, True, True)),
+        ("degree", lambda: e.degree, lambda r: r == (1 if any(avec) or kind != "zero" else 0) or (r == 0 and not any(avec))),
+        ("extract_constant_term", lambda: A.extract_constant_term(e), lambda r: abs(r - const) <= tol),
+        ("Problem.variables", lambda: [v.name for v in Problem().minimize(e).variables], lambda r: sorted(r) == sorted(names)),
+    ]
+    for j in sorted({0, 1, nvars // 2, nvars - 1}):
+        checks.append((f"extract_linear_coefficient[{names[j]}]", (lambda j=j: A.extract_linear_coefficient(e, xs[j])),
+                       (lambda r, j=j: abs(r - avec[j]) <= tol)))
+    perm = list(range(nvars)); rng.shuffle(perm)
+    for nm, order, pad in (("natural", list(range(nvars)), 0), ("permuted", perm, 0), ("superset", perm, 3)):
+        vi = {names[j]: pos + pad for pos, j in enumerate(order)}
+        want = [0.0] * (nvars + 2 * pad)
+        for j in range(nvars):
+            want[vi[names[j]]] = avec[j]
+        checks.append((f"extract_all_linear_coefficients[{nm} index map]",
+                       (lambda vi=vi, m=nvars + 2 * pad: A.extract_all_linear_coefficients(e, vi, m)),
+                       (lambda r, want=want: vec_ok(list(r), want))))
+    for what, fn, ok in checks:
+        r, f = run(what, fn)
+        if f is not None:
+            return f
+        if not ok(r):
+            return dict(base, what=f"{what} is wrong on a {shape}-deep linear accumulation", got=str(r)[:200],
+                        want_coefficients={nm: coef[nm] for nm in names[:6]}, want_constant=const)
+    # ---- the extractor: objective row and constraint rows (≤ and ≥), constant terms moved to the right-hand side
+    r0 = const + 0.4 * sum(a for a in avec if a > 0) + 0.6 * sum(a for a in avec if a < 0)  # strictly inside the range
+    other = xs[0] * 1.0 + xs[-1] * 0.5
+    ocoef = [0.0] * nvars; ocoef[0] += 1.0; ocoef[-1] += 0.5
+
+    def extracted():
+        prob = Problem().minimize(e).subject_to(e <= r0 + 1.0).subject_to(e >= r0 - 1.0)
+        d = A.LinearProgramExtractor().extract(prob)
+        order = [names.index(nm) for nm in d.variables]
+        return d, order
+
+    r, f = run("LinearProgramExtractor.extract", extracted)
+    if f is not None:
+        return f
+    d, order = r
+    wantc = [avec[j] for j in order]
+    if not vec_ok(list(d.c), wantc) or abs(float(d.c0) - const) > tol:
+        return dict(base, what="LinearProgramExtractor: objective row / constant differs", got=(list(d.c)[:6], float(d.c0)), want=(wantc[:6], const))
+    if d.A_ub is None or d.A_ub.shape != (2, nvars) or not vec_ok(list(d.A_ub[0]), wantc) or not vec_ok(list(d.A_ub[1]), [-a for a in wantc]) \
+            or abs(float(d.b_ub[0]) - (r0 + 1.0 - const)) > tol or abs(float(d.b_ub[1]) - (-(r0 - 1.0) + const)) > tol:
+        return dict(base, what="LinearProgramExtractor: constraint rows / right-hand sides differ",
+                    got=(None if d.A_ub is None else [list(row)[:4] for row in d.A_ub], None if d.b_ub is None else list(d.b_ub)),
+                    want=(wantc[:4], r0 + 1.0 - const, -(r0 - 1.0) + const))
+    for what, fn in (("is_simple_bound", lambda: A.is_simple_bound(e <= r0, xs)),
+                     ("classify_constraints", lambda: A.classify_constraints([e <= r0 + 1.0, xs[0] >= 0.25], xs))):
+        r, f = run(what, fn)
+        if f is not None:
+            return f
+    # ---- solves: as objective (min, max) and as constraint, every LP method of this case
+    problems = {
+        "objective/min": (lambda: Problem().minimize(e), scipy_lp(avec, const, "min", [], nvars)),
+        "objective/max": (lambda: Problem().maximize(e), scipy_lp(avec, const, "max", [], nvars)),
+        "constraint/>=": (lambda: Problem().minimize(other).subject_to(e >= r0), scipy_lp(ocoef, 0.0, "min", [(avec, ">=", r0 - const)], nvars)),
+        "constraint/<=": (lambda: Problem().maximize(other).subject_to(e <= r0), scipy_lp(ocoef, 0.0, "max", [(avec, "<=", r0 - const)], nvars)),
+        "both": (lambda: Problem().minimize(e).subject_to(e >= r0), r0),
+    }
+    for pname, (mk, want) in problems.items():
+        if want is None:
+            continue
+        for method in methods:
+            clear_caches()
+            with LinprogSpy() as spy:
+                sol, f = run(f"solve(method={method}) with the accumulation as {pname}", lambda: mk().solve(method=method))
+            if f is not None:
+                return f
+            if "OPTIMAL" not in str(sol.status).upper() or sol.objective_value is None or \
+                    abs(sol.objective_value - want) > 1e-6 * (1 + abs(want)):
+                return dict(base, what=f"solve(method={method}) with the accumulation as {pname}: not the optimum",
+                            got=(str(sol.status), sol.objective_value), want=want, message=str(sol.message)[:160])
+            if spy.calls == 0:
+                return dict(base, what=f"solve(method={method}) with a linear accumulation as {pname} did not take the LP route")
+    return None
+
+
+def lp_route_plan(rng, thorough):
+    """(kind, shape, wrapper, n, nvars, seed, methods): depths just below / at / above every documented depth
+    constant (400: the four switch thresholds, 500: the caps of the estimators) and up to the supported 900"""
+    sizes = [399, 400, 401, 450, 499, 500, 501, 700, 900]
+    out = []
+    if thorough:
+        for kind in LP_KINDS:
+            for shape in ("left", "right"):
+                for n in sizes:
+                    out.append((kind, shape, rng.choice(LP_WRAPS), n, rng.choice([5, 40, n]), rng.randint(0, 2 ** 31 - 1), LP_METHODS))
+    else:
+        picks = rng.sample(sizes[:-2], 3) + [700, 900]
+        for i, n in enumerate(picks):
+            for shape in ("left", "right"):
+                kind = LP_KINDS[(i + (shape == "right") + rng.randint(0, 4)) % len(LP_KINDS)]
+                out.append((kind, shape, rng.choice(LP_WRAPS), n, rng.choice([5, 40, n]), rng.randint(0, 2 ** 31 - 1),
+                            ["auto", LP_METHODS[1 + (i + (shape == "right")) % 4]]))
+    return out
+
+
 def probe_vectorised_degree():
     """(x+1).sum() / X.sum() must have the degree of their term-by-term accumulations"""
     from optyx import VectorVariable, MatrixVariable
@@ -1441,6 +1668,10 @@ def search(ctx, rep):
 
 def replay(payload) -> bool:
     f = payload["failure"]
+    if f.get("family") == "lp-route":
+        r = lp_route_case(f["kind"], f["shape"], f["wrapper"], int(f["n"]), int(f["nvars"]), int(f["seed"]), list(f["methods"]))
+        print("lp_route_case:", r)
+        return r is None
     if f.get("family") == "lifetime":
         r = lifetime_case(f["fam"], f["op"], int(f["n"]), int(f["seed"]), int(f.get("rounds", 5)))
         print("lifetime_case:", r)
